@@ -5,9 +5,9 @@ namespace FsDb
 open Sys Spec
 
 /-- `R` only looks at the logical fields -/
-theorem R.transfer {c c' : Sys} {s : State} (h : R c s) (i' : Inv c')
+theorem Rx.transfer {c c' : Sys} {s : State} {cl : List Nat} (h : Rx cl c s) (i' : Inv c')
     (h1 : c'.counter = c.counter) (h2 : c'.dom = c.dom) (h3 : c'.reg = c.reg)
-    (h4 : c'.main = c.main) (h5 : c'.txs = c.txs) : R c' s := by
+    (h4 : c'.main = c.main) (h5 : c'.txs = c.txs) : Rx cl c' s := by
   refine ⟨i', by rw [h1]; exact h.clock, by rw [h2]; exact h.dom, by rw [h3]; exact h.reg, ?_, ?_, ?_⟩
   · intro x hx k
     have hne : x.id ≠ mainTx := h.inv.regMain _ (h.mem_open hx)
@@ -97,15 +97,15 @@ theorem deleteFiles_inv {c : Sys} (i : Inv c) (vs : List Ver)
     simp only [delOne_all] at hw
     exact hd u (List.mem_cons_of_mem _ hu) k w hw
 
-theorem deleteFiles_R {c : Sys} {s : State} (h : R c s) (vs : List Ver)
-    (hd : ∀ v ∈ vs, ∀ k, ∀ w ∈ c.all k, w.cid ≠ v.cid) : R (c.deleteFiles vs) s := by
+theorem deleteFiles_R {c : Sys} {s : State} {cl : List Nat} (h : Rx cl c s) (vs : List Ver)
+    (hd : ∀ v ∈ vs, ∀ k, ∀ w ∈ c.all k, w.cid ≠ v.cid) : Rx cl (c.deleteFiles vs) s := by
   obtain ⟨f1, f2, f3, _, f5, f6, _, _⟩ := deleteFiles_fields c vs
   exact h.transfer (deleteFiles_inv h.inv vs hd) f1 f6 f5 f2 f3
 
 /-- running any list of jobs that are all dead -/
-theorem jobs_R {c : Sys} {s : State} (h : R c s) (jobs : List (List Ver))
+theorem jobs_R {c : Sys} {s : State} {cl : List Nat} (h : Rx cl c s) (jobs : List (List Ver))
     (hd : ∀ job ∈ jobs, ∀ v ∈ job, ∀ k, ∀ w ∈ c.all k, w.cid ≠ v.cid) :
-    R (jobs.foldl (fun s job => s.deleteFiles job) c) s ∧
+    Rx cl (jobs.foldl (fun s job => s.deleteFiles job) c) s ∧
     (jobs.foldl (fun s job => s.deleteFiles job) c).all = c.all ∧
     (jobs.foldl (fun s job => s.deleteFiles job) c).pending = c.pending ∧
     (jobs.foldl (fun s job => s.deleteFiles job) c).nextCid = c.nextCid := by
@@ -121,8 +121,8 @@ theorem jobs_R {c : Sys} {s : State} (h : R c s) (jobs : List (List Ver))
       exact hd job (List.mem_cons_of_mem _ hj) v hv k w hw)
     exact ⟨this.1, this.2.1.trans f4, this.2.2.1.trans f8, this.2.2.2.trans f7⟩
 
-theorem step_drain {c : Sys} {s : State} (h : R c s) :
-    (c.drain).2 = .ok ∧ R (c.drain).1 s := by
+theorem step_drain {c : Sys} {s : State} {cl : List Nat} (h : Rx cl c s) :
+    (c.drain).2 = .ok ∧ Rx cl (c.drain).1 s := by
   refine ⟨rfl, ?_⟩
   unfold Sys.drain
   obtain ⟨hR, hall, hpend, hcid⟩ := jobs_R h c.pending h.inv.pendDead
